@@ -96,6 +96,10 @@ def shards(tier, prop):
         for honest in (True, False):
             out.append(G('adv', [(0, 1), (1, 1), (0, 2), (-1, 2), (-1, 2), (-1, 2), (0, 2), (0, 0)], props, honest=honest))
         out.append(G('delay', [(0, 2), (1, 2), (1, 2), (0, 2), (0, 2), (0, 2), (0, 2), (0, 1)], props, alg='queue'))
+        # overlapping ingests where the one that started later ends first
+        for a in ('queue', 'batch2'):
+            out.append(G('two', [(1, 2), (3, 5), (1, 1), (0, 2), (0, 2), (1, 2), (2, 2), (5, 5)], props, alg=a, g1=1, edge=False))
+            out.append(G('two', [(1, 2), (3, 5), (1, 2), (0, 2), (0, 2), (1, 2), (2, 2), (5, 5)], props, alg=a, g1=2, edge=False, machines=[10, 20, 10, 10]))
         # delayed tasks on a cluster with no spare machine: whatever is released at the planned finish is taken at once
         out.append(G('delay', [(0, 2), (1, 2), (1, 2), (1, 2), (1, 2), (0, 3), (0, 3), (0, 1)], props, alg='queue', machines=[10, 20]))
         out.append(G('delay', [(0, 2), (1, 2), (1, 2), (1, 2), (1, 2), (0, 3), (0, 3), (0, 1)], props, alg='batch2', machines=[10, 20]))
@@ -134,6 +138,8 @@ def shards(tier, prop):
             out.append(G('two', [(0, 2), (1, 2), (1, 2), (0, 2), (0, 2), (1, 2), (1, 2), (5, 5)], props, alg=alg, machines=[10, 20], g1=2))
             out.append(G('three', R_THREE, props, alg=alg, shape='join', machines=[10, 20], max_ingest=1))
             out.append(G('three', R_THREE, props, alg=alg, shape='chain', max_ingest=2, ingest=[2, 1, 2]))
+        # two observations admitted in one step, then one whose ingest needs every machine the limit allows
+        out += [G('three', R_THREE, props, alg=a, shape='free', machines=[10, 20, 10, 10], max_ingest=3, ingest=[1, 1, 3]) for a in ('queue', 'batch2')]
         # per-observation (min, max) reservation sizes whose minimum may exceed what is free at that moment
         out.append(G('three', R_THREE, props, alg='batchsplit', shape='free'))
         out.append(G('two', R_TWO, props, alg='batchsplit'))
